@@ -91,6 +91,10 @@ def _run_model(case, ctx):
         P["m"] = min(P["m"], 20.0)  # n ~ p^(1/m): beyond this the integrand's tail defeats any quadrature in ln p
     T = 77.355
     m = GM.make_model(name, P, temperature=T)
+    if case["seed"] % 4 == 2 and len(m.params) > 1:
+        # the parameter dictionary as the user wrote it down: same names, another order of the keys
+        m.params = dict(reversed(list(m.params.items())))
+        ctx.count("interference", name + "/parameter-dictionary-in-another-key-order")
     from pgverif.core import _h
     dg = _h(P)
     ps = GM.sample_pressures(name, P, r, 6)
